@@ -17,7 +17,7 @@
 		"0b", "0b0", "0b1111111111111111", "0b10000000000000000", "0b2", "0X10", "0B1", " 1", "1 ", "1\u{e9}", "\u{e9}", "\u{e9}1", "12\u{e9}", "\u{20ac}", "0\u{20ac}", "0\u{1f600}8", "0x\u{20ac}", "0b\u{e9}",
 		"x", "1_0", "١", "0x١"];
 	const NAMES: [&str; 7] = ["", "p/A", "p/A$1", "\u{e9}/\u{20ac}", "[I", "a//b", "p/A;"];
-	const INNER: [&str; 8] = ["", "In", "1", "1In", "12", "\u{e9}", "٣", "a/b"];
+	const INNER: [&str; 10] = ["", "In", "1", "1In", "12", "256", "1000", "\u{e9}", "٣", "a/b"];
 	const METHODS: [(&str, &str); 6] = [("", ""), ("m", "()V"), ("m", ""), ("", "()V"), ("<init>", "(Lp/A;)V"), ("m", "(")];
 
 	/// every line built from the field menus, as a one-line file and embedded between two well-formed lines; also wrong numbers of fields
@@ -40,6 +40,10 @@
 							Some(v) => {
 								if let Some(nest) = n.all.iter().find(|(k, _)| k.as_inner() == class).map(|(_, v)| v) {
 									if u16::from(nest.inner_access) != u16::from(duke::tree::class::InnerClassFlags::from(v)) { t.fail(format!("{doc:?}"), "access flags differ from the number in the file"); }
+									// kind of the nest, from the nests format: a number = anonymous, a number followed by a name = local, otherwise inner (added after seed C14-d)
+									let digits = inner.chars().take_while(|c| c.is_ascii_digit()).count();
+									let kind_ok = if digits == inner.chars().count() { matches!(nest.nest_type, crate::nest::NestType::Anonymous) } else if digits > 0 { matches!(nest.nest_type, crate::nest::NestType::Local) } else { matches!(nest.nest_type, crate::nest::NestType::Inner) };
+									if !kind_ok { t.fail(format!("{doc:?}"), "kind of the nest (anonymous / local / inner) differs from what the inner name says"); }
 								} else { t.fail(format!("{doc:?}"), "the listed class is missing from the table"); }
 							},
 						}
